@@ -56,17 +56,32 @@ class Asn1Anchors:
             raise AnalysisError(f"ASN1Reader.peek_header calls {len(hs)} module functions, expected the header routine")
         self.header = hs[0]
         self.reader_helper: Dict[str, FuncInfo] = {}
+
+        def first_module_callee(fi: FuncInfo, seen=()) -> Optional[FuncInfo]:
+            """the module-level function a read_* method hands the view to, directly or through one private method of the class"""
+            cs = module_callees(model, fi)
+            if len(cs) == 1:
+                return cs[0]
+            if cs:
+                return None
+            for n in ast.walk(fi.node):
+                if isinstance(n, ast.Call) and isinstance(n.func, ast.Attribute) and isinstance(n.func.value, ast.Name) and n.func.value.id == "self" \
+                        and n.func.attr in rd.methods and n.func.attr not in seen and n.func.attr != fi.name:
+                    r = first_module_callee(rd.methods[n.func.attr], seen + (fi.name,))
+                    if r is not None:
+                        return r
+            return None
         for name, fi in rd.methods.items():
             if name.startswith("read_"):
-                cs = module_callees(model, fi)
-                if len(cs) == 1:
-                    self.reader_helper[name] = cs[0]
+                h = first_module_callee(fi)
+                if h is not None:
+                    self.reader_helper[name] = h
         if len(self.reader_helper) < 6:
             raise AnalysisError("fewer than 6 ASN1Reader.read_* methods delegate to a module-level helper")
         # the validating helper: reached from every read helper and calls the header routine
         cands: Optional[Set[str]] = None
         for name, h in self.reader_helper.items():
-            r = {f.qualname for f in reachable(model, h) if self.header in module_callees(model, f)}
+            r = {f.qualname for f in reachable(model, h) if self.header in module_callees(model, f) and f is not self.header}
             cands = r if cands is None else cands & r
         if not cands or len(cands) != 1:
             raise AnalysisError(f"validating helper not identified (candidates: {sorted(cands or [])})")
